@@ -59,7 +59,8 @@ func (cl Serializer) DecodeDnsResponseWithParams(msg *dns.Msg, downstream enc.En
 		return nil, errors.Errorf("Invalid response from server: no data in the answer section")
 	}
 	for _, c := range Commands {
-		if c.IsOfType(data) {
+		// commands without a response type (login, multi-query) cannot be decoded as responses
+		if c.IsOfType(data) && c.NewResponse != nil {
 			req := c.NewResponse()
 			err := req.Decode(downstream, data)
 			return req, err
